@@ -127,7 +127,13 @@ class Host:
                     import traceback
 
                     out = {"harness_error": f"{type(e).__name__}: {e}", "trace": traceback.format_exc()[-3000:]}
-                _send(req_w, ("done", out))
+                try:
+                    _send(req_w, ("done", out))
+                except BaseException as e:  # noqa: BLE001 - e.g. an unpicklable result
+                    import traceback
+
+                    _send(req_w, ("done", {"harness_error": f"cannot send the result: {type(e).__name__}: {e}",
+                                           "trace": traceback.format_exc()[-3000:]}))
             finally:
                 os._exit(0)
         os.close(req_w)
@@ -146,7 +152,14 @@ class Host:
                 try:
                     kind, payload = _recv(req_r)
                 except EOFError:
-                    result = {"harness_error": "run process died without an answer"}
+                    try:
+                        _, status = os.waitpid(pid, 0)
+                        how = f"signal {os.WTERMSIG(status)}" if os.WIFSIGNALED(status) else \
+                            f"exit status {os.WEXITSTATUS(status)}"
+                        reaped = True
+                    except OSError:
+                        how = "unknown status"
+                    result = {"harness_error": f"run process died without an answer ({how})"}
                     break
                 if kind == "ref":
                     _send(rep_w, self.reference(payload))
@@ -158,7 +171,10 @@ class Host:
                 os.kill(pid, signal.SIGKILL)
             except OSError:
                 pass
-            os.waitpid(pid, 0)
+            try:
+                os.waitpid(pid, 0)
+            except OSError:
+                pass
             os.close(req_r)
             os.close(rep_w)
         return result
